@@ -46,7 +46,13 @@ World ==
   @@ ("top" :> [imports |-> <<"user">>,
                 body |-> <<Define("top-use", Thunk(<<Call("use-counter", <<>>)>>))>>,
                 exports |-> << <<"top-use", "top-use">> >>])
-LibNames == {"counter", "user", "top"}
+  \* a library without any import declaration: its body can only define procedures over its own names - and their free
+  \* variables are unbound, whatever the importer defines (the library environment is not a child of the importer's)
+  @@ ("bare" :> [imports |-> <<>>, bare |-> TRUE,
+                 body |-> <<Define("bare-leak", Thunk(<<Var("importer-var")>>)),
+                            Define("bare-set", Thunk(<<Set("importer-var", Num(0))>>))>>,
+                 exports |-> << <<"bare-leak", "bare-leak">>, <<"bare-set", "bare-set">> >>])
+LibNames == {"counter", "user", "top", "bare"}
 
 RECURSIVE RunSteps(_, _)
 RunSteps(s, fuel) == IF s.status = "done" \/ fuel = 0 THEN s ELSE RunSteps(Step(s), fuel - 1)
@@ -85,11 +91,11 @@ ImportDecl(st, names, pfx) ==
 
 \* ---- programs: one import declaration, then operations
 ImportChoices == { <<<<"counter">>, <<"">>>>, <<<<"user">>, <<"">>>>, <<<<"counter", "user">>, <<"", "">>>>, <<<<"user", "counter">>, <<"", "">>>>,
-                   <<<<"counter", "counter">>, <<"", "c:">>>>, <<<<"top", "counter">>, <<"", "">>>>, <<<<"counter", "user", "top">>, <<"", "", "">>>> }
+                   <<<<"counter", "counter">>, <<"", "c:">>>>, <<<<"top", "counter">>, <<"", "">>>>, <<<<"counter", "user", "top">>, <<"", "", "">>>>, <<<<"bare", "counter">>, <<"", "">>>> }
 Ops == {Call("next!", <<>>), Call("use-counter", <<>>), Call("peek", <<>>), Call("show", <<>>), Call("leak", <<>>), Call("c:next!", <<>>),
         Define("helper", Thunk(<<Quote(MkSym("importer-helper"))>>)), Call("helper", <<>>),
         Define("next!", Thunk(<<Quote(MkSym("fake"))>>)), Define("importer-var", Num(5)),
-        Call("bump", <<>>), Var("n"), Call("renamed-bump", <<>>), Var("a-val"), Var("b-val"), Call("get-ab", <<>>), Var("start"), Call("u-peek", <<>>), Call("u-next!", <<>>), Call("top-use", <<>>)}
+        Call("bump", <<>>), Var("n"), Call("renamed-bump", <<>>), Var("a-val"), Var("b-val"), Call("get-ab", <<>>), Var("start"), Call("u-peek", <<>>), Call("u-next!", <<>>), Call("top-use", <<>>), Call("bare-leak", <<>>), Call("bare-set", <<>>), Var("importer-var")}
 
 VARIABLES imp, st, hist
 vars == <<imp, st, hist>>
@@ -123,5 +129,6 @@ SharedState == \A i \in DOMAIN hist :
    (hist[i].form \in Peeks /\ hist[i].r.k = "value") =>
       hist[i].r.v = MkInt(Len(SelectSeq(SubSeq(hist, 1, i), LAMBDA h : h.r.k = "value" /\ h.r.v.t = "int" /\ h.form \in Bumps)))
 Emit == Len(hist) = MaxOps => PrintT(<<"VEC", ToJson([imports |-> imp[1], prefixes |-> imp[2], hist |-> hist,
-                                                          world |-> [n \in LibNames |-> [name |-> n, imports |-> World[n].imports, body |-> World[n].body, exports |-> World[n].exports]]])>>)
+                                                          world |-> [n \in LibNames |-> [name |-> n, imports |-> World[n].imports, body |-> World[n].body, exports |-> World[n].exports,
+                                                                                          bare |-> ("bare" \in DOMAIN World[n])]]])>>)
 =============================================================================
